@@ -217,6 +217,24 @@ def _access_path(path: SubTablePath):
     return ".".join(path_parts)
 
 
+def _reorder_cff(top_dict, old_glyph_order: List[str], new_glyph_order: List[str]):
+    # fontTools compiles charstrings (and FDSelect) in the order of the top dict's own
+    # charset, which TTFont.setGlyphOrder leaves alone
+    old_gid = {name: gid for gid, name in enumerate(old_glyph_order)}
+    old_gids = [old_gid[name] for name in new_glyph_order]
+    char_strings = top_dict.CharStrings
+    if char_strings.charStringsAreIndexed:
+        index = char_strings.charStringsIndex
+        index.items = [index[gid] for gid in old_gids]
+        char_strings.charStrings = {
+            name: gid for gid, name in enumerate(new_glyph_order)
+        }
+        fd_select = getattr(top_dict, "FDSelect", None)
+        if fd_select is not None:
+            fd_select.gidArray = [fd_select.gidArray[gid] for gid in old_gids]
+    top_dict.charset = list(new_glyph_order)
+
+
 def reorder_glyphs(font: ttLib.TTFont, new_glyph_order: List[str]):
     old_glyph_order = font.getGlyphOrder()
     if len(new_glyph_order) != len(old_glyph_order):
@@ -238,6 +256,11 @@ def reorder_glyphs(font: ttLib.TTFont, new_glyph_order: List[str]):
     require_fully_loaded(font)
 
     font.setGlyphOrder(new_glyph_order)
+    for tag in ("CFF ", "CFF2"):
+        if tag in font.keys():
+            _reorder_cff(
+                font[tag].cff.topDictIndex[0], old_glyph_order, new_glyph_order
+            )
 
     coverage_containers = {"GDEF", "GPOS", "GSUB", "MATH"}
     for tag in coverage_containers:
